@@ -55,6 +55,10 @@ class Repo:
             raise GitError("git %s failed: %s" % (" ".join(args), r.stderr.strip()))
         return r.stdout.strip()
 
+    def stamp(self, t):
+        """a git date for the instant t, recorded under a random UTC offset (the instant is what counts; the recorded zone is the committer's)"""
+        return "@%d %s" % (t, self.rng.choice(["+0000", "+0000", "+1400", "-1100", "+0530", "-0500", "+0100", "-0930", "+1245"]))
+
     def rand_time(self):
         if self.rng.random() < 0.04:
             # edge instants: the epoch itself, the i32 boundary, far future
@@ -68,7 +72,7 @@ class Repo:
         ct, at = self.rand_time(), self.rand_time()
         if self.force_ctime is not None:
             ct, self.force_ctime = self.force_ctime, None
-        self.git("commit", "-q", "--allow-empty", "-m", msg, env={"GIT_COMMITTER_DATE": "@%d +0000" % ct, "GIT_AUTHOR_DATE": "@%d +0000" % at})
+        self.git("commit", "-q", "--allow-empty", "-m", msg, env={"GIT_COMMITTER_DATE": self.stamp(ct), "GIT_AUTHOR_DATE": self.stamp(at)})
         sha = self.git("rev-parse", "HEAD")
         cid = len(self.commits)
         parents = ([self.head_cid()] if self.commits else []) + parents_extra
@@ -144,7 +148,7 @@ class Repo:
                 self.ops.append("ff-merge %s" % other)
                 return True
         ct, at = self.rand_time(), self.rand_time()
-        self.git("merge", "-q", "--no-ff", "-m", "merge %s" % other, "refs/heads/" + other, env={"GIT_COMMITTER_DATE": "@%d +0000" % ct, "GIT_AUTHOR_DATE": "@%d +0000" % at})
+        self.git("merge", "-q", "--no-ff", "-m", "merge %s" % other, "refs/heads/" + other, env={"GIT_COMMITTER_DATE": self.stamp(ct), "GIT_AUTHOR_DATE": self.stamp(at)})
         sha = self.git("rev-parse", "HEAD")
         cid = len(self.commits)
         self.commits.append(dict(id=cid, parents=[h, o], ctime=ct, atime=at, sha=sha))
@@ -164,11 +168,11 @@ class Repo:
             # an annotated tag of an annotated tag of the commit (what `git tag -a outer inner` makes): both peel to the commit
             inner = "nest-%d" % len(self.tags)
             tt = self.rand_time()
-            self.git("tag", "-a", "-m", "inner", inner, self.commits[cid]["sha"], env={"GIT_COMMITTER_DATE": "@%d +0000" % tt}, check=False)
+            self.git("tag", "-a", "-m", "inner", inner, self.commits[cid]["sha"], env={"GIT_COMMITTER_DATE": self.stamp(tt)}, check=False)
             if self.git("tag", "-l", inner) != inner:
                 return False
             self.tags.append(dict(name=inner, cid=cid, annotated=True, ttime=tt))
-            r = self.git("tag", "-a", "-m", "tag " + name, name, inner, env={"GIT_COMMITTER_DATE": "@%d +0000" % tt}, check=False)
+            r = self.git("tag", "-a", "-m", "tag " + name, name, inner, env={"GIT_COMMITTER_DATE": self.stamp(tt)}, check=False)
             if self.git("tag", "-l", name) != name:
                 return False
             self.tags.append(dict(name=name, cid=cid, annotated=True, ttime=tt, nested=True))
@@ -176,7 +180,7 @@ class Repo:
             return True
         if annotated:
             tt = self.rand_time()
-            r = self.git("tag", "-a", "-m", "tag " + name, name, self.commits[cid]["sha"], env={"GIT_COMMITTER_DATE": "@%d +0000" % tt}, check=False)
+            r = self.git("tag", "-a", "-m", "tag " + name, name, self.commits[cid]["sha"], env={"GIT_COMMITTER_DATE": self.stamp(tt)}, check=False)
         else:
             r = self.git("tag", name, self.commits[cid]["sha"], check=False)
         # verify it exists (names git refuses are simply skipped)
